@@ -81,9 +81,10 @@ def generate(name, classes, bound, coverage=True):
 _G = {}
 
 
-def _init(pres, seed):
+def _init(pres, seed, observe=False):
     _G["pres"] = pres
     _G["seed"] = seed
+    _G["observe"] = observe
 
 
 def _run_chunk(chunk):
@@ -256,19 +257,24 @@ def generate_life(name, mode, objs, depth, seed, num=None, cap=None):
     return behs, res["stats"]
 
 
+def _observe_fn(ro):
+    from . import observe, project
+    return {"view": project.view_ro_xml(ro.xml), "obs": observe.observe(ro)}
+
+
 def _run_beh_chunk(chunk):
     from . import behave, execute
     out = []
     for bid, beh in chunk:
         try:
-            evs = behave.run_behaviour(bid, beh, _G["seed"])
+            evs = behave.run_behaviour(bid, beh, _G["seed"], observe=_observe_fn if _G.get("observe") else None)
             out.append((bid, evs, None))
         except execute.Machinery as e:
             out.append((bid, [], str(e)))
     return out
 
 
-def run_life_check(report, plans, seed, tier):
+def run_life_check(report, plans, seed, tier, observe=False):
     """plans: list of dict(name, mode, objs, depth, num, cap)."""
     prop = report.prop
     cov = {"states": 0, "transitions": 0, "traces_validated_against_impl": 0, "samples": [],
@@ -287,7 +293,7 @@ def run_life_check(report, plans, seed, tier):
         todo = [("%s:%d" % (plan["name"], i), b) for i, b in enumerate(behs)]
         chunks = [todo[i:i + 25] for i in range(0, len(todo), 25)]
         ctx = multiprocessing.get_context("fork")
-        with ctx.Pool(16, initializer=_init, initargs=({}, seed)) as pool:
+        with ctx.Pool(16, initializer=_init, initargs=({}, seed, observe)) as pool:
             results = [r for part in pool.map(_run_beh_chunk, chunks) for r in part]
         events = []
         behmap = dict(todo)
@@ -314,6 +320,19 @@ def run_life_check(report, plans, seed, tier):
             cov["samples"].append({"plan": plan["name"], "steps": [
                 {"k": s["k"], "obj": s["obj"], "cls": s["msg"]["cls"], "ref": s["ref"]} for s in b0["steps"]]})
         byid = {e["id"]: e for e in flat}
+        if observe:
+            from .observe import OBS_CLAUSES
+            oevs = [{"id": e["id"], "view": e["obs"]["view"], "obs": e["obs"]["obs"]} for e in flat if e["k"] == "observe"]
+            obad, ojst = judge(oevs, name + "-obs", module="Trace_Observe")
+            cov["observations"] = cov.get("observations", 0) + ojst["judged"]
+            cov["states"] += ojst["states"]
+            for b in obad:
+                for clause in b["clauses"]:
+                    if prop in OBS_CLAUSES.get(clause, ()):
+                        ev = byid[b["id"]]
+                        report.failure(clause, "life:" + b["sig"],
+                                       {"kind": "behaviour_observe", "behaviour": behmap[ev["beh"]], "beh_id": ev["beh"],
+                                        "seed": seed, "failing_step": b["id"], "raised": b["raised"]})
         for b in bad:
             ev = byid[b["id"]]
             for clause in b["clauses"]:
